@@ -23,24 +23,47 @@ def strip_header(text):
     return "\n".join(lines[i:])
 
 
-def rust_str(s):
+def rust_str(s, rnd=None, style=0):
+    """a Rust string literal denoting `s`.  style 0: one line, the usual escapes; style 1: a raw string when the text
+    permits one (no bare CR); style 2: every spelling the Rust reference gives a string literal - real line breaks,
+    \\xNN and \\u{..} escapes, \\' , and line continuations (backslash, line break, indentation) at random places, also
+    inside the grammar's own literals"""
+    if style == 1 and "\r" not in s:
+        n = 1
+        while '"' + "#" * n in s:
+            n += 1
+        return "r" + "#" * n + '"' + s + '"' + "#" * n
     out = ['"']
+    pending_cont = False
     for ch in s:
         o = ord(ch)
+        fancy = style == 2 and rnd is not None
+        if fancy and rnd.random() < 0.06:
+            out.append("\\\n" + " " * rnd.randrange(0, 9) + ("\t" if rnd.random() < 0.2 else "") + ("\n  " if rnd.random() < 0.15 else ""))
+            pending_cont = True
         if ch == "\\":
             out.append("\\\\")
         elif ch == '"':
             out.append('\\"')
         elif ch == "\n":
-            out.append("\\n")
+            out.append("\n" if fancy and not pending_cont and rnd.random() < 0.5 else "\\n")
         elif ch == "\r":
             out.append("\\r")
         elif ch == "\t":
-            out.append("\\t")
+            out.append("\t" if fancy and not pending_cont and rnd.random() < 0.5 else "\\t")
+        elif ch == " " and pending_cont:
+            out.append("\\x20")
         elif o < 0x20 or o == 0x7F:
+            out.append("\\u{%x}" % o)
+        elif fancy and ch == "'" and rnd.random() < 0.3:
+            out.append("\\'")
+        elif fancy and o < 0x80 and rnd.random() < 0.05:
+            out.append("\\x%02x" % o)
+        elif fancy and rnd.random() < 0.05:
             out.append("\\u{%x}" % o)
         else:
             out.append(ch)
+        pending_cont = False
     out.append('"')
     return "".join(out)
 
@@ -239,7 +262,9 @@ def check_C16(tier, seed):
             am = typeassert.assertion_module(g, None)
             macp = os.path.join(wd, "mac_%d.rs" % i)
             with open(macp, "w", encoding="utf-8") as f:
-                f.write("peginator_macro::peginate!(%s);\n" % rust_str(text))
+                # the grammar reaches the macro as a Rust string literal in any of its spellings (escaped, raw, with line
+                # continuations); the library route compiles the text that literal denotes
+                f.write("peginator_macro::peginate!(%s);\n" % rust_str(text, random.Random("c16m/%s/%d" % (seed, i)), style=(2, 1, 0, 2)[len(units) // 2 % 4]))
             units.append({"gidx": 2 * i, "code_path": libp, "exports": exports, "ctx": False, "extra_rust": am})
             units.append({"gidx": 2 * i + 1, "code_path": macp, "exports": exports, "ctx": False, "extra_rust": am})
             irnd = random.Random("c16i/%s/%d" % (seed, i))
